@@ -470,8 +470,13 @@ theorem C11_with_host_zone_rejected :
 theorem C11_encoded_host_wellformed (o : Oracles) (hs eh : Str) (hne : eh ≠ []) :
     encodeHost o hs true = .ok eh → bracket (unbracket eh) = eh ∧ HostOK (unbracket eh) := by
   intro he
-  rcases HostLemmas.validated_cases he with ⟨hip, hz⟩ | ⟨hn, _⟩
-  · have hzone : ∀ c, (partition 37 hs).2.1 = true ∧ c ∈ (partition 37 hs).2.2 → c ≠ 64 ∧ c ≠ 58 ∧ c ≠ 91 ∧ c ≠ 93 := by
+  -- (since fix 3fbf5b4 the IP-branch text may be that of the IDNA answer of a non-ASCII host: any text `t`)
+  rcases HostLemmas.validated_cases' he with ⟨t, hip, hz⟩ | hn
+  · clear he
+    clear hs
+    revert t
+    intro hs hip hz
+    have hzone : ∀ c, (partition 37 hs).2.1 = true ∧ c ∈ (partition 37 hs).2.2 → c ≠ 64 ∧ c ≠ 58 ∧ c ≠ 91 ∧ c ≠ 93 := by
       intro c ⟨hsep, hc⟩
       have := HostLemmas.zone_chars (HostLemmas.zoneBad_true_false hz hsep) c hc
       omega
